@@ -1,4 +1,6 @@
 import IbModel.Model.Compression
+import IbModel.Proofs.Io
+import IbModel.Props.C09
 /-!
 # Helper lemmas for C10 (detection over a well-formed codec table)
 
@@ -126,21 +128,19 @@ theorem magicMatches_iff {buf : Bytes} {c : CodecEntry} :
       exists_eq_left']
     exact ⟨fun h => h.2, fun h => ⟨h.length_le, h⟩⟩
 
-/-- content that starts with the magic bytes of `c` is detected as `c` (and as nothing else) -/
-theorem detectMagic_eq_some {tbl : List CodecEntry} (hpf : magicPrefixFree tbl = true)
-    (hsz : magicSizesOK tbl = true) {c : CodecEntry} (hc : c ∈ tbl) {m : Bytes}
-    (hm : c.magic = some m) {y : Bytes} (hp : m <+: y) : detectMagic tbl y = some c := by
-  obtain ⟨m', hm', hpos, hcap⟩ := magicSizesOK_spec hsz hc
-  rw [hm] at hm'; cases hm'
-  have hbuf : m <+: y.take bufCap := prefix_take_of_prefix bufCap hp hcap
-  have hne : (y.take bufCap).isEmpty = false := by
+/-- a buffer that holds at least the first `n ≥ |magic c|` bytes of content starting with the magic
+    bytes of `c` is detected as `c` (and as nothing else) -/
+theorem detectMagic_take_eq_some {tbl : List CodecEntry} (hpf : magicPrefixFree tbl = true)
+    {c : CodecEntry} (hc : c ∈ tbl) {m : Bytes} (hm : c.magic = some m) (hpos : 0 < m.length)
+    {n : Nat} (hn : m.length ≤ n) {y : Bytes} (hp : m <+: y) : detectMagic tbl (y.take n) = some c := by
+  have hbuf : m <+: y.take n := prefix_take_of_prefix n hp hn
+  have hne : (y.take n).isEmpty = false := by
     rw [List.isEmpty_eq_false_iff]
     intro h0
     have := hbuf.length_le
     rw [h0, List.length_nil] at this
     omega
   unfold detectMagic
-  dsimp only
   simp only [hne, Bool.false_eq_true, if_false]
   apply find?_eq_some_of_unique _ _ _ hc (magicMatches_iff.mpr ⟨m, hm, hbuf⟩)
   intro b hb hpb
@@ -149,17 +149,133 @@ theorem detectMagic_eq_some {tbl : List CodecEntry} (hpf : magicPrefixFree tbl =
   · exact (magicPrefixFree_spec hpf hc hb hm hm₂ h').symm
   · exact magicPrefixFree_spec hpf hb hc hm₂ hm h'
 
-/-- content that starts with no codec's magic bytes is not detected -/
-theorem detectMagic_eq_none {tbl : List CodecEntry} {y : Bytes}
-    (h : ∀ c ∈ tbl, ∀ m, c.magic = some m → ¬ m <+: y) : detectMagic tbl y = none := by
+/-- content that starts with no codec's magic bytes is not detected, whatever part of it was peeked -/
+theorem detectMagic_take_eq_none {tbl : List CodecEntry} {y : Bytes} (n : Nat)
+    (h : ∀ c ∈ tbl, ∀ m, c.magic = some m → ¬ m <+: y) : detectMagic tbl (y.take n) = none := by
   unfold detectMagic
-  dsimp only
   split
   · rfl
   · rw [List.find?_eq_none]
     intro c hc hmm
     obtain ⟨m, hm, hp⟩ := magicMatches_iff.mp hmm
     exact h c hc m hm (hp.trans (List.take_prefix _ _))
+
+/-! ## sources: the peeked bytes do not depend on the read schedule -/
+
+/-- the longest signature is non-empty and fits the `BufReader` -/
+def headLenOK (tbl : List CodecEntry) : Bool := decide (0 < headLen tbl) && decide (headLen tbl ≤ bufCap)
+
+theorem foldl_max_spec (l : List CodecEntry) : ∀ init : Nat,
+    init ≤ l.foldl (fun m c => max m (magicLen c)) init ∧
+      ∀ c ∈ l, magicLen c ≤ l.foldl (fun m c => max m (magicLen c)) init := by
+  induction l with
+  | nil => intro init; exact ⟨Nat.le_refl _, by simp⟩
+  | cons a l ih =>
+    intro init
+    obtain ⟨h1, h2⟩ := ih (max init (magicLen a))
+    rw [List.foldl_cons]
+    refine ⟨by omega, ?_⟩
+    intro c hc
+    rcases List.mem_cons.mp hc with rfl | hc
+    · omega
+    · exact h2 c hc
+
+theorem magic_le_headLen {tbl : List CodecEntry} {c : CodecEntry} (hc : c ∈ tbl) {m : Bytes}
+    (hm : c.magic = some m) : m.length ≤ headLen tbl := by
+  have := (foldl_max_spec tbl 0).2 c hc
+  simpa [magicLen, hm, headLen] using this
+
+theorem Src.read_spec (s : Src) (cap : Nat) : ∃ m, m ≤ cap ∧ (0 < cap → 0 < m) ∧
+    (s.read cap).1 = s.data.take m ∧ (s.read cap).2.data = s.data.drop m := by
+  unfold Src.read
+  cases s.sched with
+  | nil => exact ⟨cap, Nat.le_refl _, id, rfl, rfl⟩
+  | cons k ks => exact ⟨min cap (k + 1), Nat.min_le_left _ _, fun h => by omega, rfl, rfl⟩
+
+/-- `read_head` returns exactly the first `want` bytes of the stream (all of it when it is shorter),
+    whatever the read schedule, and loses nothing. -/
+theorem readHead_spec : ∀ (fuel want : Nat) (acc : Bytes) (s : Src), acc.length ≤ want →
+    want ≤ acc.length + fuel →
+      (readHead fuel want acc s).1 = (acc ++ s.data).take want ∧
+        (readHead fuel want acc s).1 ++ (readHead fuel want acc s).2.data = acc ++ s.data := by
+  intro fuel
+  induction fuel with
+  | zero =>
+    intro want acc s h1 h2
+    have : acc.length = want := by omega
+    simp only [readHead]
+    refine ⟨?_, ?_⟩
+    · rw [← this, List.take_left]
+    · first | rfl | trivial
+  | succ fuel ih =>
+    intro want acc s h1 h2
+    simp only [readHead]
+    split
+    · next hlt =>
+      obtain ⟨m, hm1, hm2, hr1, hr2⟩ := Src.read_spec s (want - acc.length)
+      have hmpos : 0 < m := hm2 (by omega)
+      split
+      · next hemp =>
+        rw [hr1, List.isEmpty_iff, List.take_eq_nil_iff] at hemp
+        have hd : s.data = [] := by rcases hemp with h | h; · omega
+                                    · exact h
+        refine ⟨?_, rfl⟩
+        rw [hd, List.append_nil, List.take_of_length_le (by omega)]
+      · next hne =>
+        have hlen : 0 < (s.read (want - acc.length)).1.length := by
+          cases h : (s.read (want - acc.length)).1 with
+          | nil => rw [h] at hne; simp at hne
+          | cons x xs => simp
+        have hle : (s.read (want - acc.length)).1.length ≤ m := by rw [hr1, List.length_take]; omega
+        obtain ⟨i1, i2⟩ := ih want (acc ++ (s.read (want - acc.length)).1) (s.read (want - acc.length)).2
+          (by rw [List.length_append]; omega) (by rw [List.length_append]; omega)
+        have hcat : acc ++ (s.read (want - acc.length)).1 ++ (s.read (want - acc.length)).2.data = acc ++ s.data := by
+          rw [hr1, hr2, List.append_assoc, List.take_append_drop]
+        rw [hcat] at i1 i2
+        exact ⟨i1, i2⟩
+    · next hge =>
+      have : acc.length = want := by omega
+      exact ⟨by rw [← this, List.take_left], rfl⟩
+
+/-- the buffer `detect_from_magic` sees = the first `headLen tbl` bytes of the stream, and
+    `head ++ rest` is the whole stream — for EVERY read schedule -/
+theorem peek_spec {tbl : List CodecEntry} (hH : headLenOK tbl = true) (s : Src) :
+    (peek tbl s).1 = s.data.take (headLen tbl) ∧ (peek tbl s).2.1 ++ (peek tbl s).2.2.data = s.data := by
+  simp only [headLenOK, Bool.and_eq_true, decide_eq_true_eq] at hH
+  obtain ⟨h1, h2⟩ := readHead_spec (headLen tbl) (headLen tbl) [] s (Nat.zero_le _) (by simp)
+  simp only [List.nil_append] at h1 h2
+  refine ⟨?_, h2⟩
+  simp only [peek, chainFirstFill]
+  split
+  · next hemp =>
+    rw [h1, List.isEmpty_iff, List.take_eq_nil_iff] at hemp
+    have hd : s.data = [] := by rcases hemp with h | h; · omega
+                                · exact h
+    have hrest : (readHead (headLen tbl) (headLen tbl) [] s).2.data = [] :=
+      (List.append_eq_nil_iff.mp (h2.trans hd)).2
+    obtain ⟨m, _, _, hr1, _⟩ := Src.read_spec (readHead (headLen tbl) (headLen tbl) [] s).2 bufCap
+    rw [hr1, hrest, hd]; simp
+  · rw [h1, List.take_take]
+    congr 1
+    omega
+
+theorem readerCodecSrc_eq_spec {tbl : List CodecEntry} (hH : headLenOK tbl = true) (path : List Char)
+    (s : Src) : readerCodecSrc tbl path s = readerCodecSpec tbl path s.data := by
+  unfold readerCodecSrc readerCodecSpec
+  rw [(peek_spec hH s).1]
+
+theorem autoReaderSrc_eq_spec (K : CodecImpl) {tbl : List CodecEntry} (hH : headLenOK tbl = true)
+    (path : List Char) (s : Src) : autoReaderSrc K tbl path s = autoReaderSpec K tbl path s.data := by
+  unfold autoReaderSrc autoReaderSpec readerCodecSpec
+  cases detectExt tbl path with
+  | some c => rfl
+  | none =>
+    simp only
+    rw [(peek_spec hH s).1, (peek_spec hH s).2]
+
+theorem autoReader_eq_spec (K : CodecImpl) {tbl : List CodecEntry} (hH : headLenOK tbl = true)
+    (path : List Char) (bytes : Bytes) : autoReader K tbl path bytes = autoReaderSpec K tbl path bytes :=
+  autoReaderSrc_eq_spec K hH path (Src.full bytes)
 
 /-! ## table ↔ specification -/
 
@@ -249,5 +365,122 @@ theorem detectExt_dir_irrelevant {tbl : List CodecEntry} (h : extsWellFormed tbl
     rfl
   rw [hl, Bool.eq_iff_iff, List.isSuffixOf_iff_suffix, List.isSuffixOf_iff_suffix]
   exact suffix_append_sep_iff (extsWellFormed_no_slash h hc he)
+
+
+/-! ## writer entry points: each stores `autoWriter path (what the sequential writer emits)` -/
+
+theorem jsonlPlain_flatten {ρ : Type} (ser : ρ → Bytes) (parts : List (List ρ)) :
+    (parts.map (jsonlPlain ser)).flatten = jsonlPlain ser parts.flatten := by
+  induction parts with
+  | nil => simp [jsonlPlain]
+  | cons p ps ih =>
+    rw [List.map_cons, List.flatten_cons, ih]
+    simp [jsonlPlain]
+
+/-- `write_jsonl_par` stores exactly what `write_jsonl_vec` stores, for every shard count -/
+theorem writeJsonlPar_eq {ρ : Type} (K : CodecImpl) (tbl : List CodecEntry) (ser : ρ → Bytes)
+    (path : List Char) (rs : List ρ) (shards : Option Nat) (auto : Nat) :
+    writeJsonlPar K tbl ser path rs shards auto = some (writeJsonlVec K tbl ser path rs) := by
+  unfold writeJsonlPar writeJsonlVec
+  split
+  · next h =>
+    have : rs = [] := List.eq_nil_of_length_eq_zero h
+    subst this; rfl
+  · have h := IB.Io.parWriteJsonl_concat rs shards auto
+    unfold IB.Io.parWriteJsonl at h
+    cases hp : IB.Io.parWriteWith IB.Io.jsonlShardBounds rs shards auto with
+    | none => rw [hp] at h; simp at h
+    | some parts =>
+      rw [hp] at h
+      simp only [Option.map_some, Option.some.injEq] at h ⊢
+      rw [jsonlPlain_flatten, h]
+
+/-- `write_csv_par` stores exactly what `write_csv_vec` stores, for every shard count and header flag -/
+theorem writeCsvPar_eq {ρ : Type} (K : CodecImpl) (tbl : List CodecEntry) (hdr : Bool) (header : Bytes)
+    (ser : ρ → Bytes) (path : List Char) (rs : List ρ) (shards : Option Nat) (auto : Nat) :
+    writeCsvPar K tbl hdr header ser path rs shards auto = some (writeCsvVec K tbl hdr header ser path rs) := by
+  unfold writeCsvPar writeCsvVec csvPlain
+  split
+  · next h =>
+    have : rs = [] := List.eq_nil_of_length_eq_zero h
+    subst this
+    cases hdr <;> simp [IB.Io.csvWrite]
+  · have h := IB.Io.parWriteCsv_eq_seq hdr header ser rs shards auto
+    unfold IB.Io.parWriteCsv at h
+    cases hp : IB.Io.parWriteCsvParts hdr header ser rs shards auto with
+    | none => rw [hp] at h; simp at h
+    | some bufs =>
+      rw [hp] at h
+      simp only [Option.map_some, Option.some.injEq] at h ⊢
+      rw [← h, List.flatten_flatten]
+
+theorem pcWriteCsvPar_eq {ρ : Type} (K : CodecImpl) (tbl : List CodecEntry) (hdr : Bool) (header : Bytes)
+    (ser : ρ → Bytes) (path : List Char) (rs : List ρ) (n : Nat) :
+    pcWriteCsvPar K tbl hdr header ser path rs n = writeCsvVec K tbl hdr header ser path rs := by
+  unfold pcWriteCsvPar
+  rw [IB.Io.collectParVec_eq]
+
+theorem cloudWriter_eq_autoWriter (K : CodecImpl) {tbl : List CodecEntry} (h : cloudChainOK tbl = true)
+    (key : List Char) (x : Bytes) : cloudWriter K key x = autoWriter K tbl key x := by
+  unfold cloudWriter autoWriter
+  rw [cloudWriterCodec_eq h]
+  cases detectExt tbl key <;> rfl
+
+/-! ## reader entry points: each parses `autoReader path file` with its format layer -/
+
+section readers
+variable {Line ρ : Type}
+
+theorem mapM_congr_fun {α β : Type} {f g : α → Option β} (l : List α) (h : ∀ a ∈ l, f a = g a) :
+    l.mapM f = l.mapM g := by
+  induction l with
+  | nil => rfl
+  | cons a l ih =>
+    rw [List.mapM_cons, List.mapM_cons, h a List.mem_cons_self,
+      ih (fun b hb => h b (List.mem_cons_of_mem _ hb))]
+
+theorem reader_decodes (K : CodecImpl) (tbl : List CodecEntry) (F : ReadFmt Line ρ) (r : Reader)
+    (path : List Char) (file : Bytes) :
+    r.run K tbl F path file = (autoReader K tbl path file).bind (r.plain F) := by
+  cases r with
+  | vec => rfl
+  | helper => rfl
+  | cloud => rfl
+  | streaming per par =>
+    simp only [Reader.run, readStreaming, buildShards, readShard]
+    cases autoReader K tbl path file with
+    | none => rfl
+    | some plain =>
+      simp only [Option.bind_some, Reader.plain]
+      cases F.lines plain with
+      | none => rfl
+      | some ls =>
+        simp only [Option.bind_some, Option.map_some, IB.Io.splitView, IB.Io.seqView]
+
+/-- C09 (`streamed_eq_whole`, `seqView_eq_readAll`): on a plain stream every reader entry point
+    returns what `read_*_vec` returns -/
+theorem reader_plain_eq_readAll (F : ReadFmt Line ρ) (r : Reader) (plain : Bytes) :
+    r.plain F plain = (F.lines plain).bind (IB.Io.readAll F.blank F.de) := by
+  cases r with
+  | vec => rfl
+  | helper => rfl
+  | cloud => rfl
+  | streaming per par =>
+    simp only [Reader.plain]
+    cases F.lines plain with
+    | none => rfl
+    | some ls =>
+      simp only [Option.bind_some]
+      have h1 := IB.Io.streamed_eq_whole F.blank F.de ls per
+      have h2 := IB.Io.seqView_eq_readAll F.blank F.de ls
+      cases par with
+      | false => simpa using h2
+      | true =>
+        simp only [if_true]
+        cases hs : IB.Io.splitView F.blank F.de ls per with
+        | none => simpa using h2
+        | some parts => rw [hs] at h1; simpa using h1
+
+end readers
 
 end IB.Compression
